@@ -211,7 +211,7 @@ def excl_for(lang, plat):
 # C07's shape exclusions are needed here too (nodes must correspond one to one)
 C07_SHAPE_EXCL = ['xor-incdec', 'stmt-name-comma', 'return-name-op-cast', 'sizeof-unparen', 'enum-cast-unary',
                   'delete-prefix-op', 'new-less', 'andassign-decl-heuristic', 'paren-decl-heuristic',
-                  'enumerator-angle-chain']
+                  'enumerator-angle-chain', 'new-comma']
 
 
 def cpp_type(t, lang, plat):
